@@ -26,3 +26,11 @@ reg("C04",
     "compared with independent dictionary snapshots on generator-produced and synthetic edge lists with self-loops, "
     "repeated pairs and isolated vertices. " + EXPL,
     "for repeated pairs only membership of the carried (name,id) among the candidate rows is asserted")
+
+reg("C03",
+    "exhaustive enumeration of the RNG decision tree (exact output distribution as Fractions) over an enumerated family of joint degree sequences plus Hypothesis-generated shapes; seeded chi-square for large sequences",
+    "For every small joint degree sequence of the enumerated family and every generated shape under the leaf cap, the "
+    "complete tree of integer draws of the generator is walked and the exact probability of every ordered stub "
+    "sequence is compared with the uniform law on the product of multiset permutations (all present, all equal). " + EXPL,
+    "exactness relies on the generators drawing only through the stdlib random instance's integer source; large "
+    "sequences are only sampled (chi-square at p<1e-9)")
